@@ -563,15 +563,15 @@ class Harness:
                 if md.path in seen and dup is None:
                     dup = md.path
                 seen.add(md.path)
+        for path in seen:   # (b) first: it ends the run
+            rec = w.fs.mts.get(os.path.join(path, 'reference_data'))
+            if rec is not None and len(rec.cols) > 2 * n_exp + 8:
+                return ('blowup', f'the queued intermediate {path} holds {len(rec.cols)} columns, the run has {n_exp} inputs', {'path': path})
         if dup is not None:
             over = [p for p, _ in w.fs.overwritten if p.startswith(dup)]
             lost = sorted({a[1] for p, cols in w.fs.overwritten if p.startswith(dup) for a in cols})
             return ('overwritten', f'two queue entries share the path {dup}: a later step wrote its output over an intermediate that was still queued',
                     {'path': dup, 'overwritten_writes': over[:4], 'inputs_in_the_destroyed_dataset': lost[:8], 'job_id': comb._job_id})
-        for path in seen:
-            rec = w.fs.mts.get(os.path.join(path, 'reference_data'))
-            if rec is not None and len(rec.cols) > 2 * n_exp + 8:
-                return ('blowup', f'the queued intermediate {path} holds {len(rec.cols)} columns, the run has {n_exp} inputs', {'path': path})
         return None
 
     def report_queue(self, problems, how, extra):
